@@ -292,6 +292,19 @@ def corpus(tier):
                           {'op': 'relogin', 'gap': 2.0}, conn('p3', gap=2.0)]))
         out.append(_plan([conn('p2'), pot('p0'), _ann('p0'), {'op': 'session_loss', 'how': how, 'gap': 1.0},
                           _ann('p0', order='lr', level=5, root='r2', gap=1.0), {'op': 'relogin', 'gap': 2.0}]))
+    # 9d. the first child stops reading and the send path towards it is full when the parent announces new values: the
+    #     other child must be told all the same
+    for n in (1, 2, 4):
+        for gap in (0.5, 3.0):
+            out.append(_plan([conn('p2'), conn('p3', gap=0.3), pot('p0', gap=0.3), _ann('p0'), {'op': 'stall', 'peer': 'p2', 'gap': 1.0},
+                              {'op': 'flood', 'n': n, 'gap': 0.3}, _ann('p0', order='lr', level=6, root='r2', gap=gap),
+                              conn('p1', gap=15.0)]))
+    # 9e. the same with the send path filled to just below the high-water mark, so that it is the announcement to the
+    #     stalled child that blocks (and fails after the write timeout) while the broadcast is under way
+    for size in range(65440, 65536, 6):
+        out.append(_plan([conn('p2'), conn('p3', gap=0.3), pot('p0', gap=0.3), _ann('p0'), {'op': 'stall', 'peer': 'p2', 'gap': 1.0},
+                          {'op': 'flood', 'n': 1, 'size': size, 'gap': 0.3}, _ann('p0', order='lr', level=6, root='r2', gap=1.0),
+                          conn('p1', gap=15.0)]))
     # 9b. connections made the indirect way: firewalled candidate, candidate answering both ways, child through the server
     out.append(_plan([conn('p2', indirect=True), pot('p0', 'p1'), _ann('p0'), conn('p3', gap=3.0)], firewalled=['p0']))
     out.append(_plan([conn('p2'), pot('p0', 'p1'), _ann('p0'), _ann('p1', level=3, root='r2')], pierce_all=True))
@@ -809,6 +822,9 @@ def _run(world: World, plan):
             if rec is None:
                 world.violate('C13.child_told', field='position', why='child_without_known_connection', **base)
                 continue
+            if rec.get('stalled'):
+                world.probe('stalled_child_not_judged')      # it does not read: what it "was told" cannot be observed at its end
+                continue
             got = model.told([(k, v) for (_, k, v) in rec['got']], OWN)
             joined = next((a for a in admissions if a['link'] == rec['sim'].id), None)
             facts = dict(base)
@@ -867,6 +883,24 @@ def _run(world: World, plan):
             server.send_to(OWN, M.ResetDistributed.Response())
             flags.add('reset')
             sig.append(('reset', dn.parent is not None, len(dn.children)))
+        elif op == 'stall':
+            # a child stops reading (its end of the connection stays open)
+            rec = live_link(ev['peer'], 'con')
+            if rec is not None and rec['ended'] is None:
+                world.net.fired['child_stops_reading'] += 1
+                rec['link'].writer.transport.pause_reading()
+                rec['stalled'] = True
+                sig.append(('stall', role_of(rec)))
+        elif op == 'flood':
+            # the parent sends search requests large enough to fill the send path towards a child that does not read
+            rec = None
+            if dn.parent is not None:
+                rec = by_sim.get(conn_sim.get(id(dn.parent.connection)))
+            if rec is not None and rec['ended'] is None:
+                world.net.fired['large_search_requests_from_parent'] += 1
+                for i in range(int(ev.get('n', 2))):
+                    rec['link'].send(M.DistributedSearchRequest.Request(0x31, 'someone', 7000 + i, 'q' * int(ev.get('size', 60000))))
+                sig.append(('flood',))
         elif op == 'relogin':
             # a new session after the loss (connect + login through the public calls): what was advertised has to be said
             # again to the new session, from the tree as it is now
